@@ -39,11 +39,11 @@ Qed.
 
 (* for the pipeline with all component models plugged in: every fuel above the depth of the link
    directory tree gives the same result, trace and world - the bound on the recursion is not observable *)
-Theorem verify_inst_fuel_stable now truths tc tcc cmds f1 f2 d :
+Theorem verify_inst_fuel_stable now truths tc tcc pems cmds f1 f2 d :
   (ld_depth d < f1)%nat -> (ld_depth d < f2)%nat ->
   forall w path layout_env keys step_name params inter,
-    verify_inst now truths tc tcc cmds f1 w path d layout_env keys step_name params inter =
-    verify_inst now truths tc tcc cmds f2 w path d layout_env keys step_name params inter.
+    verify_inst now truths tc tcc pems cmds f1 w path d layout_env keys step_name params inter =
+    verify_inst now truths tc tcc pems cmds f2 w path d layout_env keys step_name params inter.
 Proof.
   intros H1 H2 w path layout_env keys step_name params inter. unfold verify_inst.
   apply verify_fuel_stable; [|exact H1|exact H2]. apply inst_empty_dir_no_layouts.
